@@ -67,8 +67,11 @@ def harness_hash():
 def spec_hash():
     files = glob.glob(os.path.join(SPEC, "*.tla")) + glob.glob(os.path.join(SPEC, "*.cfg"))
     files += glob.glob(os.path.join(SPEC, "java", "verif", "*.java"))
-    files += glob.glob(os.path.join(ROOT, "lib", "*.py"))
     return sha_files(files)
+
+
+def lib_hash():
+    return sha_files([os.path.join(ROOT, "lib", f) for f in ("runner.py", "registry.py", "corrupt.py")])
 
 
 # ---------------------------------------------------------------------------- build
@@ -201,7 +204,7 @@ def corrupt_trace(family, src, dst, seed):
 def engine(family, seed, tier):
     """drivers of a family -> traces -> TLC verdicts. Cached on (repo, harness, spec, seed, tier)."""
     fam = FAMILIES[family]
-    key = hashlib.sha256(f"{repo_hash()}|{harness_hash()}|{spec_hash()}|{seed}|{tier}|{family}".encode()).hexdigest()[:16]
+    key = hashlib.sha256(f"{repo_hash()}|{harness_hash()}|{spec_hash()}|{lib_hash()}|{seed}|{tier}|{family}".encode()).hexdigest()[:16]
     cdir = os.path.join(OUT, "cache", "engine")
     os.makedirs(cdir, exist_ok=True)
     cfile = os.path.join(cdir, f"{family}-{key}.json")
@@ -321,6 +324,10 @@ def check(prop, tier, seed):
         E = engine(famname, seed, tier)
         for d in E["drivers"]:
             cov["traces_validated_against_impl"] += d["summary"].get("scenarios", 1)
+            # TLC explores one state per recorded event of the trace specification (+ initial and final state)
+            cov["states"] += d["events"] + 2
+            cov["transitions"] += d["events"] + 1
+            cov["trace_spec_states"] = cov.get("trace_spec_states", 0) + d["events"] + 2
             cov["drivers"].append({"driver": d["name"], "events": d["events"], "scenarios": d["summary"].get("scenarios"),
                                    "by_kind": d["summary"].get("by_kind")})
             for g, (ev, app, bad) in d["evals"].items():
@@ -371,7 +378,8 @@ def check(prop, tier, seed):
                     violations.append((k["guard"], path))
         cov.setdefault("binding_selftest", []).append({famname: E.get("selftest")})
     cov["distinct_nontrivial"] = len(seen_distinct)
-    cov["rule"] = ("evaluations = applications of this property's guards (antecedent true) by TLC on recorded events of the real "
+    cov["rule"] = ("states/transitions = TLC states of the MC_* models listed under `models` plus one TLC state per recorded event "
+                   "of the trace specification (trace_spec_states); evaluations = applications of this property's guards (antecedent true) by TLC on recorded events of the real "
                    "contracts; distinct_nontrivial = distinct recorded events (content hash, ignoring line numbers) on which at least "
                    "one guard of this property was applicable")
     if P.get("exhaustive"):
